@@ -344,7 +344,7 @@ impl<'p> Gen<'p> {
             api,
             lent_key: api.is_scoped() && self.rng.chance(self.p.lent_pct, 100),
             body,
-            release: if self.rng.chance(self.p.unlock_pct, 100) { Release::Unlock } else { Release::Drop },
+            release: if self.rng.chance(self.p.unlock_pct, 100) { if self.rng.chance(1, 4) { Release::UnlockInDrop } else { Release::Unlock } } else { Release::Drop },
         }
     }
 
@@ -691,6 +691,9 @@ pub fn gen_c07(seed: u64) -> Scenario {
 /// C08: several sorting collections over a shared universe in different arrangements,
 /// nested boxed/ref/retrying members, owned groups; blocking acquisitions, one or two threads
 pub fn gen_c08(seed: u64) -> Scenario {
+    if Rng::new(seed ^ 0x88).chance(3, 100) {
+        return gen_c08_big(seed);
+    }
     let mut p = Params::base();
     p.leaves = (2, 5);
     p.coll_kinds = vec![CollKind::Boxed, CollKind::Ref];
@@ -1236,4 +1239,44 @@ pub fn gen_c09_deep(seed: u64) -> Scenario {
     cfg.max_steps = 8000;
     cfg.fair_after = 4000;
     Scenario { world: w, program: Program { threads: vec![v, x, y] }, cfg, profile: "C09".into() }
+}
+
+/// C08 with many locks: two or three sorting collections over the same 33-48 locks in
+/// different arrangements, one thread, blocking acquisitions (sorting code may take another
+/// path for long lists)
+pub fn gen_c08_big(seed: u64) -> Scenario {
+    let mut rng = Rng::new(seed ^ 0xB16);
+    let n = rng.range(33, 48);
+    let rw = rng.chance(1, 2);
+    let leaves: Vec<LeafKind> = (0..n).map(|_| if rw { LeafKind::R } else { *rng.pick(&[LeafKind::M, LeafKind::R, LeafKind::PM]) }).collect();
+    let mut slots: Vec<Slot> = (0..n).map(Slot::Leaf).collect();
+    rng.shuffle(&mut slots);
+    let mut targets = Vec::new();
+    for _ in 0..rng.range(2, 3) {
+        let mut ms: Vec<TSpec> = (0..n).map(TSpec::Leaf).collect();
+        rng.shuffle(&mut ms);
+        // sometimes part of the list sits in a nested collection
+        if rng.chance(1, 2) {
+            let k = rng.range(2, 6);
+            let sub: Vec<TSpec> = ms.drain(..k).collect();
+            let kind = *rng.pick(&[CollKind::Boxed, CollKind::Ref, CollKind::Retry]);
+            ms.push(TSpec::Coll { kind, cont: ContKind::Vec, members: sub, poison: false });
+            rng.shuffle(&mut ms);
+        }
+        let kind = *rng.pick(&[CollKind::Boxed, CollKind::Ref]);
+        let cont = *rng.pick(&[ContKind::Vec, ContKind::BoxSlice]);
+        targets.push(TSpec::Coll { kind, cont, members: ms, poison: false });
+    }
+    let nt = targets.len();
+    let w = WorldSpec { leaves, units: vec![], slots, targets, datas: vec![], gates: 0, tags: 0 };
+    let mut steps = Vec::new();
+    for t in 0..nt {
+        let api = if rw && rng.chance(1, 2) { Api::Read } else { Api::Lock };
+        steps.push(Step::Acquire(Acq { target: t, rebuild: rng.chance(1, 3), api, lent_key: false, body: vec![], release: Release::Drop }));
+    }
+    let p = Params::base();
+    let mut g = Gen::new(seed, &p);
+    let mut cfg = g.cfg(200);
+    cfg.faults.try_refuse_pct = 0;
+    Scenario { world: w, program: Program { threads: vec![steps] }, cfg, profile: "C08".into() }
 }
